@@ -31,6 +31,12 @@ Theorem protocol_shape : protocol_shape_ok = true.
 Proof. exact (eq_refl true). Qed.
 Print Assumptions protocol_shape.
 
+(* initial/dependency mode is not part of the key: a facts-only analysis stores ONLY vetx, the other kinds are
+   stored after `if a.factsOnly { return nil }` and looked up under `if !a.factsOnly` *)
+Theorem factsonly_stores_only_vetx : factsonly_ok = true.
+Proof. exact (eq_refl true). Qed.
+Print Assumptions factsonly_stores_only_vetx.
+
 (* every environment read in the code linked into cmd/staticcheck is keyed, or cannot influence what is
    analysed/stored, or is the recorded finding (SA9007's directory lookups).  PARTIAL: the full statement
    [env_reads_full_statement] (Model/C04.v) does not hold on this tree, see design.d/C04.md and known_findings.txt. *)
